@@ -907,6 +907,10 @@ def concatenate_ds(datasets, axis=0, align=False, **kwargs):
     a: ('x0',)
     b: ('x0', 'x1')
     """
+    # an integer axis refers to the datasets' dimensions (as in the other Dataset methods), not to each variable's own layout
+    if not isinstance(axis, str):
+        axis = datasets[0].axes[axis].name
+
     # find the list of variables common to all datasets
     variables = None
     for ds in datasets:
